@@ -246,6 +246,14 @@ pub fn build_csr<Ty: EdgeType, E: EW>(ag: &AG, hist: usize, rng: &mut Rng) -> (C
         g.add_node(i as i32);
     }
     let (_, eo) = orders(ag, hist, rng);
+    if hist == 2 && ag.n > 0 {
+        // garbage history: other edges first, then clear_edges (the only removal Csr has), then the real edges
+        for _ in 0..1 + rng.below(4) {
+            let (a, b) = (rng.below(ag.n), rng.below(ag.n));
+            g.add_edge(a as u32, b as u32, E::from_i64(GARBAGE_W));
+        }
+        g.clear_edges();
+    }
     for &k in &eo {
         let (s, t, w) = ag.edges[k];
         g.add_edge(s as u32, t as u32, E::from_i64(w));
